@@ -201,8 +201,7 @@ func (e *Engine) verifyFunc(fc *FuncContract) (res *FuncResult) {
 			panic(r)
 		}
 	}()
-	st := &State{vars: map[types.Object]Value{}, ghost: map[string]T{}, pc: tTrue}
-	st.HI = e.fresh("HI0", SArr)
+	st := &State{vars: map[types.Object]Value{}, ghost: map[string]T{}, pc: tTrue, H: map[string]T{}}
 	st.Mem = e.fresh("Mem0", SHeap)
 	st.alloc = e.fresh("alloc0", SInt)
 	e.assumeGlobal(Ge(st.alloc, I(1)), "allocation pointer starts above nil")
@@ -264,8 +263,6 @@ func (e *Engine) verifyFunc(fc *FuncContract) (res *FuncResult) {
 		}
 		cx.returns = append(cx.returns, &retState{st: out, vals: vals, pos: body.Rbrace})
 	}
-	resObjs := e.resultObjects(fc)
-	errAlias := e.errAlias(fc)
 	for _, r := range cx.returns {
 		for i := len(cx.defers) - 1; i >= 0; i-- {
 			if r.st != nil {
@@ -279,14 +276,7 @@ func (e *Engine) verifyFunc(fc *FuncContract) (res *FuncResult) {
 		for k, v := range entry {
 			env[k] = v
 		}
-		for i, ro := range resObjs {
-			if i < len(r.vals) {
-				env[ro] = r.vals[i]
-			}
-		}
-		if errAlias != nil && len(r.vals) > 0 {
-			env[errAlias] = r.vals[len(r.vals)-1]
-		}
+		bindResults(fc, env, r.vals)
 		e.oldState = entryState
 		for _, ens := range fc.ensures {
 			if ens.assume {
